@@ -83,6 +83,9 @@ def gen(draw):
             new = [a if a != 2 else draw(st.integers(0, 1)) for a in al]
             if len(set(new)) > 1:
                 case["gt_errors"][str(vi)] = new
+    case["tag"] = draw(st.sampled_from(["PS", "PS", "HP"]))
+    case["only_snvs"] = draw(st.integers(0, 5)) == 0
+    case["min_overlap"] = draw(st.sampled_from([2, 2, 2, 3]))
     case["opts"] = {"B": draw(st.sampled_from([0, 1, 2, 3, 4, 4, 5])), # the ILP behind --use-prephasing takes minutes per case at ploidy 6: drawn for ploidy <= 5 only
                     "prephase": ploidy <= 5 and draw(st.integers(0, 5 if ploidy == 5 else 3)) == 0}
     return case
@@ -176,10 +179,41 @@ class PolyphasePart:
         with contextlib.redirect_stdout(buf), contextlib.redirect_stderr(buf):
             with open(out, "w") as fo:
                 run_polyphase([bam], vcf, ploidy, reference=ref, output=fo, block_cut_sensitivity=o["B"], threads=1,
-                              use_prephasing=o["prephase"], write_command_line_header=False, **kw)
+                              use_prephasing=o["prephase"], write_command_line_header=False, tag=case.get("tag", "PS"),
+                              only_snvs=bool(case.get("only_snvs")), min_overlap=case.get("min_overlap", 2), **kw)
         P.check_readable(out, "polyphase")
         ha, a = vm.read_vcf(vcf)
         hb, b = vm.read_vcf(out)
+        if case.get("tag") == "HP":
+            # the tool's HP encoding: GT stays unphased, HP has one 'set-(allele + 1)' entry per haplotype; bring it into the
+            # form the rest of the oracle reads (phased flag, PS, alleles in haplotype order)
+            for y in b:
+                for c in y["samples"].values():
+                    hp = c["fmt"].get("HP")
+                    if hp in (None, ".", (".",)) or c["GT"] is None:
+                        continue
+                    hp = hp if isinstance(hp, (tuple, list)) else str(hp).split(",")
+                    try:
+                        ids = [str(x).split("-") for x in hp]
+                        sid = {int(i[0]) for i in ids}
+                        order = [int(i[1]) - 1 for i in ids]
+                    except (ValueError, IndexError):
+                        ctx.violation("polyphase:hp-syntax", "%s:%d HP value %r" % (y["chrom"], y["pos"], hp))
+                        continue
+                    if len(sid) != 1 or len(order) != len(c["GT"]) or min(order) < 0:
+                        ctx.violation("polyphase:hp-syntax", "%s:%d HP value %r for GT %r" % (y["chrom"], y["pos"], hp, c["GT"]))
+                        continue
+                    c["GT"], c["phased"] = tuple(order), True
+                    c["fmt"]["PS"] = sid.pop()
+            ctx.label("tag-HP")
+        if case.get("only_snvs"):
+            ctx.label("only-snvs")
+            for x, y in zip(a, b):
+                for smp, c in y["samples"].items():
+                    if x["samples"][smp]["phased"]:
+                        continue        # phase that came with the (pre-phased) input, not the tool's statement
+                    if c["phased"] and not (len(y["ref"]) == 1 and all(len(z) == 1 for z in y["alts"])):
+                        ctx.violation("polyphase:non-snv-phased", "%s:%d %s>%s phased with --only-snvs" % (y["chrom"], y["pos"], y["ref"], y["alts"]))
         for kind, msg in vm.diff_headers(ha, hb):
             ctx.violation("polyphase:" + kind, msg)
         def untouched(sample, rec):
@@ -202,14 +236,15 @@ class PolyphasePart:
             if wcase is not case and str(vi) in case.get("gt_errors", {}):
                 return case["gt_errors"][str(vi)]
             return [h[vi] for h in haps]
-        het = [vi for vi in range(len(variants)) if len(set(vcf_alleles(vi))) > 1 and not (wcase is not case and vi in case.get("missing", []))]
+        het = [vi for vi in range(len(variants)) if len(set(vcf_alleles(vi))) > 1 and not (wcase is not case and vi in case.get("missing", []))
+               and not (case.get("only_snvs") and G.vtype(variants[vi]) != "snv")]
         accessible = set()
         by_name = {}
         for r in reads:
             by_name.setdefault(r["name"], []).append(r)
         for rs in by_name.values():
             cov = {vi for r in rs for vi in het if G.coverage_class(r, variants[vi]) == "full"}
-            if len(cov) >= 2:
+            if len(cov) >= max(2, case.get("min_overlap", 2)):
                 accessible.update(cov)
         acc_pos = {variants[vi]["pos"] for vi in accessible}
         runs = []
